@@ -161,7 +161,7 @@ def r06_2(ctx):
                 for m in ast.walk(fi2.node):
                     if isinstance(m, ast.Assign) and isinstance(m.targets[0], ast.Name) and m.targets[0].id == n.func.value.id and "hybrid_effect_dict" in U(m.value):
                         poppers.add(fi2.qual)
-    exp = {"RZILTransformer.chk_hybrid_dep", "RZILTransformer.emit_final_seq_return", "RZILTransformer.reset", "ILOpsHolder.update_hybrid_ref", "RZILTransformer.block_item"}
+    exp = {"RZILTransformer.chk_hybrid_dep", "RZILTransformer.emit_final_seq_return", "RZILTransformer.reset", "ILOpsHolder.update_hybrid_ref", "RZILTransformer.take_pending_effects"}
     ctx.check("who may remove pending effects", poppers == exp, str(sorted(exp)), str(sorted(poppers)), "rzilcompiler/Transformer/RZILTransformer.py")
     # only the loop-step site asks for SEQ_THEN_HYB
     sites = []
@@ -360,28 +360,21 @@ def r06_3(ctx):
         ctx.check(k, False, "pending effects are sequenced where the statement stands", f.observed, f.where)
 
 
-@rule("R06.4", "C06", "side effects inside a loop condition are evaluated on every iteration (inside REPEAT), not once before the loop", min_instances=1)
+@rule("R06.4", "C06", "side effects inside a loop condition would have to run on every iteration: such a loop is rejected, never translated with the effect hoisted out of the loop", min_instances=2)
 def r06_4(ctx):
-    from sa.kinds import KindEngine
-
     idx = get_index(ctx.env)
-    r = Runner(idx)
-    box = {}
+    for pending in (True, False):
+        r = Runner(idx)
 
-    def items():
-        owner = AObj("Hybrid", {}, label="cond.owner", opaque=True)
-        cond = r.pure("items[2]", vt=mk_vt("tc", True, 32, ("PURE", "HYBRID_LVAR")), cls="LocalVar", hybrid_owner=owner)
-        box["cond"] = cond
-        return [Tok("FOR", "for"), eff(r, "items[1]"), cond, eff(r, "items[3]"), eff(r, "items[4]")]
+        def items():
+            cond = r.pure("items[2]", vt=mk_vt("tc", True, 32, ("PURE", "HYBRID_LVAR") if pending else ("PURE",)), cls="LocalVar")
+            r.stubs[("items[2]", "get_name")] = "h_tmp7" if pending else "x"
+            return [Tok("FOR", "for"), eff(r, "items[1]"), cond, eff(r, "items[3]"), eff(r, "items[4]")]
 
-    fi, outs = r.run("iteration_stmt", items)
-    good = [o for o in outs if o.kind != "raise"]
-    ctx.need(good, "for loop has no translating path")
-    for o in good:
-        v = o.value
-        loops = [e[2] for e in o.events if e[0] == "node" and e[1] == "ForLoop"]
-        ctx.need(len(loops) == 1, "for loop node not found")
-        comp = ctor(loops[0], "compound")
-        inside = id(box["cond"]) in KindEngine.reach(comp)
-        ctx.check("for loop: pending effects of the condition are flushed inside the loop body", inside, "a flushed consumer inside REPEAT references the condition",
-                  "only the enclosing Sequence([init, loop]) references the condition: its pending effect runs once, before the initialiser", fn_where(idx, fi))
+        def over():
+            return {"il_ops_holder": AObj("ILOpsHolder", {"hybrid_effect_dict": {"h_tmp7": eff(r, "pending7")} if pending else {}, "hybrid_op_count": 8}, label="holder", opaque=True)}
+
+        fi, outs = r.run("iteration_stmt", items, self_over=over)
+        obs = sorted({"raises" if o.kind == "raise" else "translates" for o in outs})
+        exp = ["raises"] if pending else ["translates"]
+        ctx.check(f"for loop whose condition {'has a' if pending else 'has no'} pending side effect", obs == exp, str(exp), str(obs), fn_where(idx, fi))
